@@ -16,7 +16,7 @@ use crate::ring_like::digest;
 #[cfg(feature = "pem")]
 use crate::ENCODE_CONFIG;
 use crate::{
-	check_time, oid, write_distinguished_name, write_dt_utc_or_generalized,
+	check_ia5, check_time, oid, write_distinguished_name, write_dt_utc_or_generalized,
 	write_x509_authority_key_identifier, write_x509_extension, DistinguishedName, Error, Issuer,
 	KeyIdMethod, KeyPair, KeyUsagePurpose, SanType, SerialNumber,
 };
@@ -648,6 +648,18 @@ impl CertificateParams {
 	) -> Result<CertificateDer<'static>, Error> {
 		check_time(self.not_before)?;
 		check_time(self.not_after)?;
+		for subtree in self
+			.name_constraints
+			.iter()
+			.flat_map(|c| c.permitted_subtrees.iter().chain(&c.excluded_subtrees))
+		{
+			if let GeneralSubtree::Rfc822Name(name) | GeneralSubtree::DnsName(name) = subtree {
+				check_ia5(name)?;
+			}
+		}
+		for distribution_point in &self.crl_distribution_points {
+			distribution_point.check_encodable()?;
+		}
 		let der = issuer.key_pair.sign_der(|writer| {
 			let pub_key_spki =
 				yasna::construct_der(|writer| serialize_public_key_der(pub_key, writer));
